@@ -571,12 +571,13 @@ Proof.
     rewrite zero_at_mask. fold n. rewrite HM. unfold n at 2. rewrite zero_mask_all.
     unfold pad. rewrite repeat_length. fold n. rewrite <- repeat_app.
     replace (n + (maxp - n)) with maxp by lia. reflexivity.
-  - apply Z.eqb_neq in E2. rewrite HK. rewrite <- zero_at_mask.
+  - apply Z.eqb_neq in E2.
+    assert (HZ : zero_at D th = zero_mask (mask_of D 0 n) th) by (unfold n; apply zero_at_mask).
+    rewrite HK, <- HZ.
     replace (Z.of_nat n - Z.of_nat (length D))%Z with (Z.of_nat (n - length D)) by lia.
-    rewrite select_combine.
-    replace (select (kept_of D n) (combine I (zero_at D th))) with (select (kept_of D n) (combine I th)); [reflexivity|].
-    rewrite <- !select_combine. f_equal.
-    rewrite (zero_at_mask D th). fold n. rewrite <- HK. symmetry. apply select_zero_mask.
+    replace (select (kept_of D n) (zero_at D th)) with (select (kept_of D n) th).
+    + rewrite select_combine. reflexivity.
+    + rewrite HZ, <- HK. symmetry. apply select_zero_mask.
 Qed.
 
 (* ---------------------------------------------------------------- well-formedness of the dropped set *)
@@ -642,8 +643,663 @@ Proof.
   destruct (dropped_set th I fop) as [D0|] eqn:ED.
   - destruct (dropped_set_wf th I fop D0 HL ED) as [_ [_ [ND HB]]].
     unfold result_for. fold n. apply finish_spec; assumption.
-  - unfold result_for, kept_of. fold n. rewrite zero_at_nil, clear_at_nil. simpl length. rewrite Nat.sub_0_r.
-    unfold n. rewrite <- HL at 3. rewrite <- (combine_length I th) at 1.
-    assert (E : length (combine I th) = length th) by (rewrite combine_length; lia).
-    rewrite <- E. rewrite select_all. reflexivity.
+  - unfold result_for, kept_of. rewrite zero_at_nil, clear_at_nil. simpl length. rewrite Nat.sub_0_r.
+    assert (E : length (combine I th) = n) by (rewrite combine_length; lia).
+    rewrite <- E at 3. rewrite select_all. reflexivity.
+Qed.
+
+(* ================================================================== corollaries of [decide_result] *)
+Section Corollaries.
+Variables (maxp : nat) (th : list Q) (I : list xq) (nll : xq) (fop : list Q -> xq).
+Let n := length th.
+Hypothesis HL : length I = n.
+Hypothesis Hmax : n <= maxp.
+Hypothesis HG : good I.
+
+Let D := dropped_list th I fop.
+
+Lemma D_facts : NoDup D /\ (forall i, In i D -> i < n) /\ length D <= n.
+Proof.
+  unfold D, dropped_list. destruct (dropped_set th I fop) as [D0|] eqn:E.
+  - destruct (dropped_set_wf th I fop D0 HL E) as [_ [_ [ND HB]]]. repeat split; auto.
+    apply dropped_le; auto.
+  - repeat split; [constructor|intros i []|simpl; lia].
+Qed.
+
+(* returned parameters: zero at the dropped positions, theta elsewhere, zero padding *)
+Lemma params_zeroed : forall r, decide maxp th I nll fop = Ret r ->
+  length (r_params r) = maxp /\
+  forall i, nth i (r_params r) 0%Q =
+            if (i <? n) && nth i (r_kept r) true then nth i th 0%Q else 0%Q.
+Proof.
+  intros r Hr. rewrite decide_result in Hr by assumption. inversion Hr; subst r; clear Hr. simpl.
+  fold n. fold D. split.
+  - apply pad_length. rewrite zero_at_length. exact Hmax.
+  - intros i. rewrite nth_pad, nth_zero_at.
+    destruct (Nat.ltb_spec i n) as [Hi|Hi]; simpl.
+    + unfold kept_of. rewrite nth_kept by assumption. destruct (memn i D); reflexivity.
+    + rewrite (nth_overflow th) by (fold n; lia). destruct (memn i D); reflexivity.
+Qed.
+
+(* i is dropped iff it is in the dropped set *)
+Lemma kept_mask_D : forall r, decide maxp th I nll fop = Ret r ->
+  length (r_kept r) = n /\ forall i, i < n -> (nth i (r_kept r) true = false <-> In i D).
+Proof.
+  intros r Hr. rewrite decide_result in Hr by assumption. inversion Hr; subst r; clear Hr. simpl.
+  fold n. fold D. split.
+  - unfold kept_of. rewrite clear_at_mask, map_length. apply mask_of_length.
+  - intros i Hi. unfold kept_of. rewrite nth_kept by assumption. rewrite negb_false_iff. apply memn_true.
+Qed.
+
+(* k and the number of terms are the number of kept parameters *)
+Lemma k_counts_kept : forall r, decide maxp th I nll fop = Ret r ->
+  exists ts, r_len r = Codelen (Z.of_nat (count (r_kept r))) ts /\
+             ts = select (r_kept r) (combine I th) /\ length ts = count (r_kept r) /\
+             count (r_kept r) = n - length D.
+Proof.
+  intros r Hr. rewrite decide_result in Hr by assumption. inversion Hr; subst r; clear Hr. simpl.
+  fold n. fold D. destruct D_facts as [ND [HB HD]].
+  rewrite kept_of_count by assumption.
+  eexists. split; [reflexivity|]. split; [reflexivity|]. split; [|reflexivity].
+  rewrite select_length.
+  - apply kept_of_count; assumption.
+  - unfold kept_of. rewrite clear_at_mask, map_length, mask_of_length, combine_length. lia.
+Qed.
+
+(* the returned nll: unchanged when nothing is dropped, otherwise the likelihood re-evaluated at
+   exactly the returned parameters (for every fop) *)
+Lemma nll_is_fop_at_params : forall r, decide maxp th I nll fop = Ret r ->
+  (count (r_kept r) = n -> r_nll r = nll) /\
+  (count (r_kept r) < n -> r_nll r = fop (firstn n (r_params r))).
+Proof.
+  intros r Hr. rewrite decide_result in Hr by assumption. inversion Hr; subst r; clear Hr. simpl.
+  fold n. fold D. destruct D_facts as [ND [HB HD]].
+  rewrite kept_of_count by assumption.
+  replace (firstn n (pad maxp (zero_at D th))) with (zero_at D th)
+    by (unfold n; rewrite <- (zero_at_length D th); symmetry; apply firstn_pad).
+  unfold nll_for, D, dropped_list in *.
+  destruct (dropped_set th I fop) as [D0|] eqn:E.
+  - destruct (dropped_set_wf th I fop D0 HL E) as [_ [H1 _]]. split; [lia|reflexivity].
+  - simpl. split; [reflexivity|lia].
+Qed.
+
+(* when the incoming nll is the likelihood at theta, the returned nll is always the likelihood at the
+   returned parameters *)
+Lemma nll_consistent : fop th = nll -> forall r, decide maxp th I nll fop = Ret r ->
+  r_nll r = fop (firstn n (r_params r)).
+Proof.
+  intros Hc r Hr. rewrite decide_result in Hr by assumption. inversion Hr; subst r; clear Hr. simpl.
+  fold n. fold D.
+  replace (firstn n (pad maxp (zero_at D th))) with (zero_at D th)
+    by (unfold n; rewrite <- (zero_at_length D th); symmetry; apply firstn_pad).
+  unfold nll_for, D, dropped_list. destruct (dropped_set th I fop); [reflexivity|].
+  rewrite zero_at_nil. symmetry. exact Hc.
+Qed.
+
+(* ---- which parameters are dropped *)
+Let m := map2 lt1 th I.
+Let C := idx_of m.
+
+Lemma C_spec : forall i, In i C <-> (i < n /\ lt1 (nth i th 0%Q) (nth i I NaN) = true).
+Proof.
+  intros i. unfold C. rewrite In_idx_of.
+  assert (Hm : length m = n) by (unfold m; rewrite map2_length; auto).
+  rewrite Hm. split; intros [Hi H]; split; try assumption.
+  - unfold m, map2 in H.
+    rewrite (nth_indep _ false ((fun p => lt1 (fst p) (snd p)) (0%Q, NaN))) in H
+      by (rewrite map_length, combine_length; lia).
+    rewrite (map_nth (fun p => lt1 (fst p) (snd p))) in H. rewrite combine_nth in H by auto. exact H.
+  - unfold m, map2.
+    rewrite (nth_indep _ false ((fun p => lt1 (fst p) (snd p)) (0%Q, NaN)))
+      by (rewrite map_length, combine_length; lia).
+    rewrite (map_nth (fun p => lt1 (fst p) (snd p))). rewrite combine_nth by auto. exact H.
+Qed.
+
+(* no parameter below the threshold: nothing is dropped, nll unchanged *)
+Lemma nothing_below_threshold : C = [] -> D = [] /\ nll_for th I nll fop = nll.
+Proof.
+  intros HC. unfold D, dropped_list, nll_for, dropped_set. fold m.
+  destruct (existsb (fun b : bool => b) m) eqn:E; [|split; reflexivity]. exfalso.
+  apply existsb_exists in E. destruct E as [b [Hb ->]].
+  apply In_nth with (d := false) in Hb. destruct Hb as [i [Hi Hn]].
+  assert (In i C) by (apply In_idx_of; split; assumption). rewrite HC in H. contradiction.
+Qed.
+
+(* all-at-once snap keeps the likelihood finite: dropped <-> below the threshold *)
+Lemma all_at_once : C <> [] -> isfin (fop (zero_at C th)) = true -> D = C.
+Proof.
+  intros HC HF. unfold D, dropped_list, dropped_set. fold m. fold C.
+  destruct (existsb (fun b : bool => b) m) eqn:E; simpl.
+  - unfold fin_at. rewrite HF. reflexivity.
+  - exfalso. apply HC. unfold C. apply existsb_id_count in E. rewrite E.
+    generalize (length m). intros k. rewrite idx_of_from. generalize 0.
+    induction k; intros s; [reflexivity|]. simpl repeat. rewrite idx_from_cons. apply IHk.
+Qed.
+
+(* otherwise: the first subset, in the code's order, whose snap keeps the likelihood finite; none -> restore *)
+Lemma fallback_search : C <> [] -> isfin (fop (zero_at C th)) = false ->
+  dropped_set th I fop = find (fin_at fop th) (subsets_in_order C).
+Proof.
+  intros HC HF. unfold dropped_set. fold m. fold C.
+  destruct (existsb (fun b : bool => b) m) eqn:E; simpl.
+  - unfold fin_at at 1. rewrite HF. reflexivity.
+  - exfalso. apply HC. unfold C. apply existsb_id_count in E. rewrite E.
+    generalize (length m). intros k. rewrite idx_of_from. generalize 0.
+    induction k; intros s; [reflexivity|]. simpl repeat. rewrite idx_from_cons. apply IHk.
+Qed.
+
+Lemma single_candidate_restored : length C = 1 -> isfin (fop (zero_at C th)) = false ->
+  D = [] /\ nll_for th I nll fop = nll.
+Proof.
+  intros H1 HF. assert (HC : C <> []) by (destruct C; [discriminate|congruence]).
+  unfold D, dropped_list, nll_for. rewrite (fallback_search HC HF).
+  unfold subsets_in_order. rewrite H1. simpl. split; reflexivity.
+Qed.
+
+End Corollaries.
+
+(* ================================================================== statements that need no hypothesis on I *)
+Lemma bad_curvature_nan : forall maxp th I nll fop,
+  (exists a, In a I /\ nonpos_or_nan a) -> decide maxp th I nll fop = nan_result maxp nll.
+Proof.
+  intros maxp th I nll fop H. apply bad_second_iff in H. unfold decide. now rewrite H.
+Qed.
+
+Lemma finish_ret : forall maxp orig cur I v k kept, (0 <= k)%Z ->
+  exists r, finish maxp orig cur I v k kept = Ret r /\ r_len r <> CNaN.
+Proof.
+  intros. unfold finish. destruct (k <? 0)%Z eqn:E; [apply Z.ltb_lt in E; lia|].
+  destruct (k =? 0)%Z; eexists; (split; [reflexivity|simpl; discriminate]).
+Qed.
+
+(* decide never reaches quit() nor a NameError, and NaN comes only from the validity test *)
+Lemma decide_total : forall maxp th I nll fop,
+  exists r, decide maxp th I nll fop = Ret r /\ (r_len r = CNaN <-> bad_second I = true).
+Proof.
+  intros maxp th I nll fop. unfold decide.
+  destruct (bad_second I) eqn:EB.
+  { eexists. split; [reflexivity|]. simpl. tauto. }
+  assert (HN : forall o, (exists r, o = Ret r /\ r_len r <> CNaN) ->
+                         exists r, o = Ret r /\ (r_len r = CNaN <-> false = true)).
+  { intros o [r [-> Hr]]. exists r. split; [reflexivity|]. split; [contradiction|discriminate]. }
+  apply HN. clear HN.
+  set (m := map2 lt1 th I).
+  assert (Hm : length m <= length th).
+  { unfold m, map2. rewrite map_length, combine_length. lia. }
+  destruct (negb (existsb (fun b : bool => b) m)).
+  { eexists. split; [reflexivity|simpl; discriminate]. }
+  destruct (isfin (fop (zero_mask m th))) eqn:Efin.
+  { apply finish_ret. pose proof (count_le_length m). lia. }
+  pose proof (search_spec fop th (idx_of m) (mkSS (zero_mask m th) (fop (zero_mask m th)) None) Efin) as HS.
+  destruct (find (fin_at fop th) (subsets_in_order (idx_of m))) as [D|] eqn:EF.
+  - rewrite HS. apply find_some in EF. destruct EF as [HI EF]. unfold fin_at in EF.
+    unfold st_of. simpl. rewrite EF. apply finish_ret.
+    apply subsets_in_order_spec in HI. destruct HI as [_ HI].
+    rewrite idx_of_from, idx_from_length in HI. pose proof (count_le_length m). lia.
+  - rewrite HS. apply finish_ret. lia.
+Qed.
+
+(* an infinite entry: passes the second test on its own, is never a snapping candidate *)
+Lemma inf_not_candidate : forall t, lt1 t PInf = false /\ lt1 t NInf = false.
+Proof. intros. split; reflexivity. Qed.
+Lemma inf_triggers_sweep : forall I, (In PInf I \/ In NInf I) -> bad_first I = true.
+Proof.
+  intros I H. unfold bad_first. apply orb_true_iff. right. apply existsb_exists.
+  destruct H; [exists PInf|exists NInf]; split; auto.
+Qed.
+Lemma bad_second_first : forall I, bad_second I = true -> bad_first I = true.
+Proof. intros I H. unfold bad_first, bad_second in *. rewrite H. reflexivity. Qed.
+
+(* ================================================================== the sweep *)
+Lemma mat_ok_good : forall n M, mat_ok n M = true -> good (diag n M).
+Proof.
+  intros n M H. unfold mat_ok in H. apply andb_true_iff in H. destruct H as [HF HP].
+  rewrite forallb_forall in HP. apply Forall_forall. intros a Ha. specialize (HP a Ha).
+  unfold diag in Ha. apply in_map_iff in Ha. destruct Ha as [i [<- Hi]].
+  set (a := nth i (nth i M []) NaN) in *.
+  assert (Hfin : isfin a = true \/ a = NaN).
+  { unfold a. destruct (nth_in_or_default i (nth i M []) NaN) as [Hin|Hd]; [|right; exact Hd].
+    left. destruct (nth_in_or_default i M []) as [Hin2|Hd2].
+    - rewrite forallb_forall in HF. specialize (HF _ Hin2). rewrite forallb_forall in HF. now apply HF.
+    - rewrite Hd2 in Hin. destruct i; contradiction. }
+  destruct Hfin as [Hfin|Hnan]; [|rewrite Hnan in HP; discriminate].
+  destruct a as [q| | |]; try discriminate. exists q. split; [reflexivity|]. now apply Qlt_b_true.
+Qed.
+
+Lemma mode_in : forall l, l <> [] -> exists x, mode l = Some x /\ In x l.
+Proof.
+  intros l Hne. unfold mode.
+  assert (G : forall l' b, (match b with None => True | Some y => In y l end) -> incl l' l ->
+              match fold_left (fun b x => match b with
+                                          | None => Some x
+                                          | Some y => if better l x y then Some x else b end) l' b with
+              | None => b = None /\ l' = []
+              | Some y => In y l
+              end).
+  { induction l' as [|x l' IH]; intros b Hb Hincl; simpl.
+    - destruct b; auto.
+    - assert (Hx : In x l) by (apply Hincl; now left).
+      assert (Hincl' : incl l' l) by (intros y Hy; apply Hincl; now right).
+      destruct b as [y|].
+      + destruct (better l x y).
+        * specialize (IH (Some x) Hx Hincl'). simpl in IH.
+          destruct (fold_left _ l' (Some x)); [assumption|]. destruct IH; discriminate.
+        * specialize (IH (Some y) Hb Hincl'). simpl in IH.
+          destruct (fold_left _ l' (Some y)); [assumption|]. destruct IH; discriminate.
+      + specialize (IH (Some x) Hx Hincl'). simpl in IH.
+        destruct (fold_left _ l' (Some x)); [assumption|]. destruct IH; discriminate. }
+  specialize (G l None I (incl_refl l)). simpl in G.
+  destruct (fold_left _ l None) as [y|].
+  - exists y. split; [reflexivity|assumption].
+  - destruct G as [_ G]. contradiction.
+Qed.
+
+Lemma find_idx_some : forall {A} (p : A -> bool) l s, (exists x, In x l /\ p x = true) ->
+  exists i, find_idx p l s = Some i /\ s <= i < s + length l.
+Proof.
+  intros A p l. induction l as [|a l IH]; intros s [x [Hx Hp]]; [contradiction|].
+  simpl. destruct (p a) eqn:E.
+  - exists s. split; [reflexivity|lia].
+  - destruct Hx as [->|Hx]; [congruence|]. destruct (IH (S s)) as [i [Hi Hr]]; [eauto|].
+    exists i. split; [assumption|lia].
+Qed.
+
+Lemma Qeq_bool_refl : forall x, Qeq_bool x x = true.
+Proof. intros. apply Qeq_bool_iff. reflexivity. Qed.
+
+Lemma choose_at_cases : forall d n F, 0 < n ->
+  choose_at d n F = NoRepeat \/ exists M, choose_at d n F = Picked M /\ In M F.
+Proof.
+  intros d n F Hn. unfold choose_at.
+  set (keys := map (fun M => map (key d) (diag n M)) F).
+  set (col0 := map (fun r => hd 0%Q r) keys).
+  destruct (has_dup col0) eqn:Edup; [|now left]. right.
+  assert (Hne : col0 <> []).
+  { destruct col0; [discriminate|discriminate]. }
+  destruct (mode_in col0 Hne) as [m0 [Hm0 Hin]]. rewrite Hm0.
+  assert (Hrow : exists row, In row keys /\ existsb (Qeq_bool m0) row = true).
+  { unfold col0 in Hin. apply in_map_iff in Hin. destruct Hin as [row [Hhd Hrow]].
+    exists row. split; [assumption|].
+    unfold keys in Hrow. apply in_map_iff in Hrow. destruct Hrow as [M [<- HM]].
+    unfold diag in *. destruct n; [lia|]. simpl in *. subst m0. now rewrite Qeq_bool_refl. }
+  destruct (find_idx_some (existsb (Qeq_bool m0)) keys 0 Hrow) as [i [Hi Hr]]. rewrite Hi.
+  unfold keys in Hr. rewrite map_length in Hr.
+  destruct (nth_error F i) as [M|] eqn:EN.
+  - exists M. split; [reflexivity|]. eapply nth_error_In; eauto.
+  - apply nth_error_None in EN. lia.
+Qed.
+
+Lemma choose_cases : forall n cands, 0 < n ->
+  choose n cands = NoRepeat \/ exists M, choose n cands = Picked M /\ In M cands /\ mat_ok n M = true.
+Proof.
+  intros n cands Hn. unfold choose.
+  assert (HF : forall M, In M (filter (mat_ok n) cands) -> In M cands /\ mat_ok n M = true)
+    by (intros M; apply filter_In).
+  destruct (choose_at_cases 3 n (filter (mat_ok n) cands) Hn) as [E|[M [E HM]]]; rewrite E.
+  - destruct (choose_at_cases 1 n (filter (mat_ok n) cands) Hn) as [E1|[M [E1 HM]]]; rewrite E1.
+    + now left.
+    + right. exists M. split; [reflexivity|]. now apply HF.
+  - right. exists M. split; [reflexivity|]. now apply HF.
+Qed.
+
+(* the whole routine: either the NaN return of the sweep, or [decide] on a positive finite diagonal
+   (that of the first Hessian, or of a sweep candidate that passed the filter); in particular an
+   infinite, NaN or non-positive entry never reaches the formula, and line 180 never fires. *)
+Theorem convert_cases : forall maxp th H0 cands nll fop,
+  let n := length th in
+  0 < n ->
+  (bad_first (diag n H0) = false /\ good (diag n H0) /\
+   convert maxp th H0 cands nll fop = (decide maxp th (diag n H0) nll fop, H0))
+  \/ (bad_first (diag n H0) = true /\ choose n cands = NoRepeat /\
+      convert maxp th H0 cands nll fop = (nan_result maxp nll, H0))
+  \/ (bad_first (diag n H0) = true /\ exists M, choose n cands = Picked M /\ In M cands /\ mat_ok n M = true /\
+      good (diag n M) /\ convert maxp th H0 cands nll fop = (decide maxp th (diag n M) nll fop, M)).
+Proof.
+  intros maxp th H0 cands nll fop n Hn. unfold convert. fold n.
+  destruct n as [|n'] eqn:En; [lia|]. rewrite <- En in *.
+  destruct (bad_first (diag n H0)) eqn:EB.
+  - right. destruct (choose_cases n cands Hn) as [E|[M [E [HM HOK]]]]; rewrite E.
+    + left. repeat split; reflexivity.
+    + right. split; [reflexivity|]. exists M. repeat split; auto. now apply mat_ok_good.
+  - left. repeat split; auto. now apply not_bad_first_good.
+Qed.
+
+(* ================================================================== over the reals *)
+Open Scope R_scope.
+
+(* the code's test  |t| / sqrt(12/i) < 1  is  t^2 * i < 12  for i > 0 *)
+Lemma nsteps_lt1_equiv : forall t i : R, 0 < i -> (Rabs t / sqrt (12 / i) < 1 <-> t * t * i < 12).
+Proof.
+  intros t i Hi.
+  assert (Hq : 0 < 12 / i) by (apply Rdiv_lt_0_compat; lra).
+  assert (Hs : 0 < sqrt (12 / i)) by (apply sqrt_lt_R0; exact Hq).
+  assert (E1 : Rabs t / sqrt (12 / i) < 1 <-> Rabs t < sqrt (12 / i)).
+  { assert (Ha : Rabs t = (Rabs t / sqrt (12 / i)) * sqrt (12 / i)) by (field; lra).
+    set (x := Rabs t / sqrt (12 / i)) in *. set (s := sqrt (12 / i)) in *.
+    split; intros H.
+    - rewrite Ha. nra.
+    - rewrite Ha in H. nra. }
+  assert (E2 : Rabs t < sqrt (12 / i) <-> t * t < 12 / i).
+  { split; intros H.
+    - apply Rsqr_incrst_1 in H; [|apply Rabs_pos|lra].
+      rewrite <- Rsqr_abs in H. rewrite Rsqr_sqrt in H by lra. exact H.
+    - rewrite <- (sqrt_Rsqr_abs t). apply sqrt_lt_1_alt. split; [apply Rle_0_sqr|exact H]. }
+  assert (E3 : t * t < 12 / i <-> t * t * i < 12).
+  { assert (Hy : 12 / i * i = 12) by (field; lra).
+    set (y := 12 / i) in *. split; intros H; nra. }
+  tauto.
+Qed.
+
+(* ... and is the documented form |t| * sqrt(i/12) < 1 *)
+Lemma nsteps_doc_form : forall t i : R, 0 < i -> Rabs t / sqrt (12 / i) = Rabs t * sqrt (i / 12).
+Proof.
+  intros t i Hi. unfold Rdiv at 1. f_equal.
+  assert (Hq : 0 < 12 / i) by (apply Rdiv_lt_0_compat; lra).
+  assert (Hs : 0 < sqrt (12 / i)) by (apply sqrt_lt_R0; exact Hq).
+  apply (Rmult_eq_reg_l (sqrt (12 / i))); [|lra].
+  rewrite Rinv_r by lra. rewrite <- sqrt_mult by (try lra; apply Rlt_le, Rdiv_lt_0_compat; lra).
+  replace (12 / i * (i / 12)) with 1 by (field; lra). symmetry. apply sqrt_1.
+Qed.
+
+Lemma Q2R_12 : Q2R 12 = 12.
+Proof. unfold Q2R. simpl. lra. Qed.
+
+Lemma lt1_real : forall (t q : Q), (0 < q)%Q ->
+  (lt1 t (Fin q) = true <-> Rabs (Q2R t) * sqrt (Q2R q / 12) < 1).
+Proof.
+  intros t q Hq.
+  assert (HqR : 0 < Q2R q) by (replace 0 with (Q2R 0) by (unfold Q2R; simpl; lra); now apply Qlt_Rlt).
+  rewrite <- nsteps_doc_form by exact HqR. rewrite nsteps_lt1_equiv by exact HqR.
+  simpl. apply Qlt_b_true in Hq. rewrite Hq. simpl. rewrite Qlt_b_true.
+  rewrite <- Q2R_12, <- !Q2R_mult. split; [apply Qlt_Rlt|apply Rlt_Qlt].
+Qed.
+
+(* ---------------------------------------------------------------- denotation of the structure *)
+Inductive dval := DReal (r : R) | DNegInf | DNaN | DUndef.
+
+Definition term_val (p : xq * Q) : R :=
+  match fst p with Fin q => / 2 * ln (Q2R q) + ln (Rabs (Q2R (snd p))) | _ => 0 end.
+Fixpoint term_sum (ts : list (xq * Q)) : R :=
+  match ts with [] => 0 | p :: r => term_val p + term_sum r end.
+Definition terms_posfin (ts : list (xq * Q)) : bool := forallb (fun p => gt0 (fst p) && isfin (fst p)) ts.
+Definition terms_zero (ts : list (xq * Q)) : bool := existsb (fun p => Qeq_bool (snd p) 0) ts.
+
+(* -(k/2) ln 3 + sum (1/2 ln I + ln|theta|); -inf when a kept theta is 0 (ln 0), as in floats;
+   DUndef when a curvature is not positive finite (never produced by convert) *)
+Definition denote (c : clen) : dval :=
+  match c with
+  | CNaN => DNaN
+  | Codelen k ts =>
+      if negb (terms_posfin ts) then DUndef
+      else if terms_zero ts then DNegInf
+      else DReal (- (IZR k / 2) * ln 3 + term_sum ts)
+  end.
+
+(* the documented formula, written directly over the inputs and the kept mask *)
+Fixpoint formula_sum (kept : list bool) (I : list xq) (th : list Q) : R :=
+  match kept, I, th with
+  | b :: kept', a :: I', t :: th' => (if b then term_val (a, t) else 0) + formula_sum kept' I' th'
+  | _, _, _ => 0
+  end.
+Fixpoint kept_zero (kept : list bool) (th : list Q) : bool :=
+  match kept, th with
+  | b :: kept', t :: th' => (b && Qeq_bool t 0) || kept_zero kept' th'
+  | _, _ => false
+  end.
+
+Lemma term_sum_select : forall kept I th,
+  term_sum (select kept (combine I th)) = formula_sum kept I th.
+Proof.
+  induction kept as [|b kept IH]; intros I th; [reflexivity|].
+  destruct I as [|a I]; [reflexivity|]. destruct th as [|t th]; [reflexivity|].
+  unfold select in *. simpl. destruct b; simpl; rewrite IH; lra.
+Qed.
+
+Lemma terms_zero_select : forall kept I th, length I = length th ->
+  terms_zero (select kept (combine I th)) = kept_zero kept th.
+Proof.
+  induction kept as [|b kept IH]; intros I th HL; [reflexivity|].
+  destruct I as [|a I]; destruct th as [|t th]; try discriminate; [reflexivity|].
+  unfold select, terms_zero in *. simpl. destruct b; simpl; rewrite IH; auto.
+Qed.
+
+Lemma select_incl : forall {A} kept (l : list A), incl (select kept l) l.
+Proof.
+  intros A. induction kept as [|b kept IH]; intros l x Hx; [inversion Hx|].
+  destruct l as [|y l]; [inversion Hx|]. unfold select in *. simpl in Hx.
+  destruct b; simpl in Hx.
+  - destruct Hx as [->|Hx]; [now left|right; now apply IH].
+  - right. now apply IH.
+Qed.
+
+Lemma terms_posfin_good : forall kept I th, good I -> terms_posfin (select kept (combine I th)) = true.
+Proof.
+  intros kept I th HG. unfold terms_posfin. apply forallb_forall. intros [a t] Hp.
+  apply select_incl in Hp. apply in_combine_l in Hp. unfold good in HG. rewrite Forall_forall in HG.
+  apply HG, posfin_tests in Hp. simpl. destruct Hp as [_ [_ [_ [-> ->]]]]. reflexivity.
+Qed.
+
+(* codelen_formula: the returned structure denotes the documented formula over the kept parameters *)
+Theorem codelen_formula : forall maxp th I nll fop r,
+  length I = length th -> (length th <= maxp)%nat -> good I ->
+  decide maxp th I nll fop = Ret r ->
+  let k := count (r_kept r) in
+  denote (r_len r) =
+    if kept_zero (r_kept r) th then DNegInf
+    else DReal (- (INR k / 2) * ln 3 + formula_sum (r_kept r) I th).
+Proof.
+  intros maxp th I nll fop r HL Hmax HG Hr k.
+  destruct (k_counts_kept maxp th I nll fop HL Hmax HG r Hr) as [ts [Hlen [Hts _]]].
+  rewrite Hlen. unfold denote. rewrite Hts.
+  rewrite terms_posfin_good by assumption. simpl negb. cbv iota.
+  rewrite terms_zero_select by assumption. rewrite term_sum_select.
+  fold k. rewrite <- INR_IZR_INZ. reflexivity.
+Qed.
+
+Theorem all_dropped_zero_len : forall maxp th I nll fop r,
+  length I = length th -> (length th <= maxp)%nat -> good I ->
+  decide maxp th I nll fop = Ret r -> count (r_kept r) = 0%nat ->
+  r_len r = Codelen 0 [] /\ denote (r_len r) = DReal 0 /\ r_params r = repeat 0%Q maxp.
+Proof.
+  intros maxp th I nll fop r HL Hmax HG Hr Hk.
+  destruct (k_counts_kept maxp th I nll fop HL Hmax HG r Hr) as [ts [Hlen [Hts [HtsL _]]]].
+  rewrite Hk in *. destruct ts; [|discriminate]. split; [exact Hlen|]. split.
+  - rewrite Hlen. simpl. f_equal. lra.
+  - destruct (params_zeroed maxp th I nll fop HL Hmax HG r Hr) as [HPL HP].
+    destruct (kept_mask_D maxp th I nll fop HL Hmax HG r Hr) as [HKL _].
+    apply (nth_ext _ _ 0%Q 0%Q).
+    + now rewrite repeat_length.
+    + intros i Hi. rewrite HP.
+      assert (Hrep : nth i (repeat 0%Q maxp) 0%Q = 0%Q).
+      { clear. revert i. induction maxp; intros i; destruct i; simpl; auto. }
+      rewrite Hrep.
+      destruct (Nat.ltb_spec i (length th)) as [Hin|Hin]; simpl; [|reflexivity].
+      assert (Hall : forall kept, count kept = 0%nat -> forall j, (j < length kept)%nat -> nth j kept true = false).
+      { clear. induction kept as [|b kept IH]; intros Hc j Hj; simpl in Hj; [lia|].
+        unfold count in *. simpl in Hc. destruct b; simpl in Hc; [discriminate|].
+        destruct j; [reflexivity|]. apply IH; [assumption|lia]. }
+      rewrite Hall; auto. lia.
+Qed.
+
+(* ---------------------------------------------------------------- kept_iff, in the property's words *)
+Definition below (th : list Q) (I : list xq) (i : nat) : Prop :=
+  exists q, nth i I NaN = Fin q /\ Rabs (Q2R (nth i th 0%Q)) * sqrt (Q2R q / 12) < 1.
+
+Lemma below_iff_candidate : forall th I, length I = length th -> good I ->
+  forall i, In i (idx_of (map2 lt1 th I)) <-> ((i < length th)%nat /\ below th I i).
+Proof.
+  intros th I HL HG i. rewrite (C_spec (length th) th I HL (le_n _)).
+  split; intros [Hi H]; split; try assumption.
+  - assert (Hin : In (nth i I NaN) I) by (apply nth_In; lia).
+    unfold good in HG. rewrite Forall_forall in HG. destruct (HG _ Hin) as [q [Eq Hq]].
+    exists q. split; [assumption|]. rewrite Eq in H. now apply lt1_real.
+  - destruct H as [q [Eq H]]. rewrite Eq.
+    assert (Hin : In (nth i I NaN) I) by (apply nth_In; lia).
+    unfold good in HG. rewrite Forall_forall in HG. destruct (HG _ Hin) as [q' [Eq' Hq]].
+    rewrite Eq in Eq'. inversion Eq'; subst q'. now apply lt1_real.
+Qed.
+
+Theorem kept_iff : forall maxp th I nll fop r,
+  length I = length th -> (length th <= maxp)%nat -> good I ->
+  decide maxp th I nll fop = Ret r ->
+  let n := length th in
+  let C := idx_of (map2 lt1 th I) in
+  let dropped i := nth i (r_kept r) true = false in
+  (* C is the set of parameters below the threshold *)
+  (forall i, In i C <-> ((i < n)%nat /\ below th I i)) /\
+  (* the all-at-once snap keeps the likelihood finite: dropped <-> below the threshold *)
+  (isfin (fop (zero_at C th)) = true -> forall i, (i < n)%nat -> (dropped i <-> below th I i)) /\
+  (* otherwise: the first subset in the order (size |C|-1 down to 1, itertools.combinations order
+     within a size) whose snap keeps the likelihood finite; none (e.g. |C| = 1): nothing is dropped *)
+  (C <> [] -> isfin (fop (zero_at C th)) = false ->
+     match find (fin_at fop th) (subsets_in_order C) with
+     | Some D => (forall i, (i < n)%nat -> (dropped i <-> In i D)) /\
+                 sublist D C /\ (1 <= length D < length C)%nat /\ fin_at fop th D = true /\
+                 (forall D', sublist D' C -> (length D < length D' < length C)%nat -> fin_at fop th D' = false)
+     | None => forall i, (i < n)%nat -> ~ dropped i
+     end).
+Proof.
+  intros maxp th I nll fop r HL Hmax HG Hr n C dropped.
+  destruct (kept_mask_D maxp th I nll fop HL Hmax HG r Hr) as [_ HK].
+  pose proof (below_iff_candidate th I HL HG) as HB. fold C in HB. fold n in HB.
+  split; [exact HB|]. split.
+  - intros HF i Hi. unfold dropped. rewrite (HK i Hi).
+    destruct C as [|c C'] eqn:EC.
+    + destruct (nothing_below_threshold th I nll fop EC) as [-> _]. specialize (HB i). simpl in *. tauto.
+    + assert (HC : C <> []) by (rewrite EC; discriminate).
+      rewrite <- EC in HF. rewrite (all_at_once th I fop HC HF).
+      change (In i C <-> below th I i). rewrite EC. specialize (HB i). tauto.
+  - intros HC HF. pose proof (fallback_search th I fop HC HF) as HS. fold C in HS.
+    destruct (find (fin_at fop th) (subsets_in_order C)) as [D|] eqn:EF.
+    + split.
+      * intros i Hi. unfold dropped. rewrite (HK i Hi). unfold dropped_list. rewrite HS. tauto.
+      * pose proof EF as EF2. apply find_some in EF2. destruct EF2 as [HI HFD].
+        apply subsets_in_order_spec in HI. destruct HI as [HSub HLen].
+        repeat split; try assumption; try lia.
+        intros D' HS' HL'. eapply larger_subsets_not_finite; eauto.
+    + intros i Hi. unfold dropped. rewrite (HK i Hi). unfold dropped_list. rewrite HS. simpl. tauto.
+Qed.
+
+(* within one size, the order is that of itertools.combinations: everything before D in combs C |D| is not finite *)
+Theorem fallback_same_size_order : forall fop th C D,
+  find (fin_at fop th) (subsets_in_order C) = Some D ->
+  exists pre post, combs C (length D) = pre ++ D :: post /\ forall D', In D' pre -> fin_at fop th D' = false.
+Proof.
+  intros fop th C D HF. unfold subsets_in_order in HF.
+  assert (G : forall k, find (fin_at fop th) (concat (map (combs C) (rev (seq 1 k)))) = Some D ->
+                        find (fin_at fop th) (combs C (length D)) = Some D).
+  { induction k as [|k IH]; intros H; [discriminate|].
+    rewrite rev_seq_S in H. simpl in H. rewrite find_app in H.
+    destruct (find (fin_at fop th) (combs C (S k))) as [D0|] eqn:E.
+    - inversion H; subst D0. pose proof E as E2. apply find_some in E2. destruct E2 as [E2 _].
+      apply combs_spec in E2. destruct E2 as [_ E2]. rewrite E2. exact E.
+    - now apply IH. }
+  apply G in HF. apply find_first in HF. destruct HF as [pre [post [E [_ HP]]]]. eauto.
+Qed.
+
+(* ================================================================== a kept parameter is never 0 on consistent inputs *)
+Close Scope R_scope.
+Open Scope nat_scope.
+
+Lemma sublist_single : forall {A} (x : A) l, In x l -> sublist [x] l.
+Proof.
+  intros A x l. induction l as [|y l IH]; intros H; [inversion H|].
+  destruct H as [->|H].
+  - constructor. constructor.
+  - apply sub_skip. now apply IH.
+Qed.
+
+Lemma sublist_insert : forall (D C : list nat) i, sublist D C -> In i C -> ~ In i D ->
+  exists D', sublist D' C /\ length D' = S (length D) /\ forall j, In j D' <-> (j = i \/ In j D).
+Proof.
+  intros D C i HS. induction HS as [l|x l1 l2 HS IH|x l1 l2 HS IH]; intros HiC HiD.
+  - exists [i]. split; [now apply sublist_single|]. split; [reflexivity|]. intros j. simpl. intuition.
+  - assert (Hne : i <> x) by (intros ->; apply HiD; now left).
+    destruct HiC as [HiC|HiC]; [congruence|].
+    destruct IH as [D' [H1 [H2 H3]]]; [assumption|intros H; apply HiD; now right|].
+    exists (x :: D'). split; [now constructor|]. split; [simpl; lia|].
+    intros j. simpl. rewrite H3. intuition.
+  - destruct (Nat.eq_dec i x) as [->|Hne].
+    + exists (x :: l1). split; [now constructor|]. split; [reflexivity|]. intros j. simpl. intuition.
+    + destruct HiC as [HiC|HiC]; [congruence|].
+      destruct IH as [D' [H1 [H2 H3]]]; [assumption|assumption|].
+      exists D'. split; [now apply sub_skip|]. split; assumption.
+Qed.
+
+Lemma sublist_same_length : forall {A} (l1 l2 : list A), sublist l1 l2 -> length l1 = length l2 -> l1 = l2.
+Proof.
+  intros A l1 l2 H. induction H as [l|x l1 l2 H IH|x l1 l2 H IH]; intros HL.
+  - destruct l; [reflexivity|discriminate].
+  - f_equal. apply IH. simpl in HL. lia.
+  - apply sublist_length in H. simpl in HL. lia.
+Qed.
+
+Lemma zero_at_insert_zero : forall D D' th i,
+  (forall j, In j D' <-> (j = i \/ In j D)) -> nth i th 0%Q = 0%Q -> zero_at D' th = zero_at D th.
+Proof.
+  intros D D' th i HD Hz. apply (nth_ext _ _ 0%Q 0%Q).
+  - now rewrite !zero_at_length.
+  - intros j _. rewrite !nth_zero_at.
+    destruct (memn j D') eqn:E1; destruct (memn j D) eqn:E2; try reflexivity.
+    + apply memn_true in E1. apply HD in E1. destruct E1 as [->|E1]; [now rewrite Hz|].
+      apply memn_true in E1. congruence.
+    + apply memn_true in E2. assert (In j D') by (apply HD; now right). apply memn_true in H. congruence.
+Qed.
+
+Lemma kept_zero_witness : forall kept th, kept_zero kept th = true ->
+  exists i, i < length th /\ i < length kept /\ nth i kept true = true /\ Qeq_bool (nth i th 0%Q) 0 = true.
+Proof.
+  induction kept as [|b kept IH]; intros th H; [discriminate|].
+  destruct th as [|t th]; [discriminate|]. simpl in H. apply orb_true_iff in H. destruct H as [H|H].
+  - apply andb_true_iff in H. destruct H as [-> Ht]. exists 0. simpl. repeat split; try lia; assumption.
+  - destruct (IH th H) as [i [H1 [H2 [H3 H4]]]]. exists (S i). simpl. repeat split; try lia; assumption.
+Qed.
+
+Theorem kept_nonzero : forall maxp th I nll fop r,
+  length I = length th -> length th <= maxp -> good I ->
+  fop th = nll -> isfin nll = true ->
+  (forall i, Qeq_bool (nth i th 0%Q) 0 = true -> nth i th 0%Q = 0%Q) ->
+  decide maxp th I nll fop = Ret r -> kept_zero (r_kept r) th = false.
+Proof.
+  intros maxp th I nll fop r HL Hmax HG Hc Hfin Hlit Hr.
+  destruct (kept_zero (r_kept r) th) eqn:EK; [exfalso|reflexivity].
+  apply kept_zero_witness in EK. destruct EK as [i [Hi [_ [Hkept Hz]]]].
+  apply Hlit in Hz.
+  destruct (kept_mask_D maxp th I nll fop HL Hmax HG r Hr) as [_ HK].
+  assert (HiD : ~ In i (dropped_list th I fop)).
+  { intros H. apply (HK i Hi) in H. congruence. }
+  set (C := idx_of (map2 lt1 th I)).
+  assert (HiC : In i C).
+  { apply (C_spec (length th) th I HL (le_n _)). split; [assumption|]. rewrite Hz.
+    assert (Hin : In (nth i I NaN) I) by (apply nth_In; lia).
+    unfold good in HG. rewrite Forall_forall in HG. destruct (HG _ Hin) as [q [-> Hq]].
+    simpl. apply Qlt_b_true in Hq. rewrite Hq. simpl. apply Qlt_b_true.
+    setoid_replace (0 * 0 * q)%Q with 0%Q by ring. reflexivity. }
+  assert (HC : C <> []) by (intros E; rewrite E in HiC; inversion HiC).
+  destruct (isfin (fop (zero_at C th))) eqn:EF.
+  - rewrite (all_at_once th I fop HC EF) in HiD. contradiction.
+  - pose proof (fallback_search th I fop HC EF) as HS. fold C in HS.
+    unfold dropped_list in HiD. rewrite HS in HiD.
+    destruct (find (fin_at fop th) (subsets_in_order C)) as [D0|] eqn:EFind.
+    + pose proof EFind as E2. apply find_some in E2. destruct E2 as [HIn HfD].
+      apply subsets_in_order_spec in HIn. destruct HIn as [HSub HLen].
+      destruct (sublist_insert D0 C i HSub HiC HiD) as [D' [HS' [HL' HD']]].
+      pose proof (zero_at_insert_zero D0 D' th i HD' Hz) as HZ.
+      pose proof (sublist_length _ _ HS') as HLe.
+      destruct (Nat.eq_dec (length D') (length C)) as [Eq|Ne].
+      * apply sublist_same_length in HS'; [|assumption]. subst D'.
+        unfold fin_at in HfD. rewrite <- HZ in HfD. congruence.
+      * assert (Hf : fin_at fop th D' = false).
+        { eapply larger_subsets_not_finite; eauto. lia. }
+        unfold fin_at in *. rewrite HZ in Hf. congruence.
+    + assert (HZ : zero_at [i] th = zero_at [] th).
+      { apply (zero_at_insert_zero [] [i] th i); [|assumption]. intros j. simpl. intuition. }
+      rewrite zero_at_nil in HZ.
+      pose proof (sublist_single i C HiC) as HS1. pose proof (sublist_length _ _ HS1) as HLe. simpl in HLe.
+      destruct (Nat.eq_dec (length C) 1) as [Eq|Ne].
+      * assert (E1 : [i] = C) by (apply sublist_same_length; [assumption|simpl; lia]).
+        rewrite <- E1, HZ, Hc, Hfin in EF. discriminate.
+      * assert (HIn : In [i] (subsets_in_order C)).
+        { apply subsets_in_order_spec. split; [assumption|simpl; lia]. }
+        eapply find_none in EFind; [|exact HIn]. unfold fin_at in EFind. rewrite HZ, Hc, Hfin in EFind. discriminate.
 Qed.
